@@ -8,7 +8,33 @@ from vlib.core import HarnessError, log
 SPECDIR = "reconcile_routes"
 
 
+FINDINGS = {"F1": "F1-early-delete-forgets-belief", "F2": "F2-partial-resync-swallows-list-error",
+            "F3": "F3-stale-iface-state-on-ifindex-reuse"}
+
+
+def classify(events):
+    """A rejected trace (cut after the rejected event) is attributed to confirmed defect Fx iff TLC accepts it
+    under tolerance Fx, i.e. with the environment assumption weakened exactly at that defect's trigger
+    (Routes.tla, constant Tol).  Returns the finding signature or None."""
+    import tempfile
+    d = tempfile.mkdtemp(prefix="c17cls-", dir=core.WORK)
+    try:
+        p = os.path.join(d, "cut.ndjson")
+        core.write_ndjson(p, events)
+        for f in ("F1", "F2", "F3"):
+            tr = core.validate_trace(SPECDIR, "T_Routes", "T_Routes_%s.cfg" % f, p, heap="4g", timeout=300)
+            if tr.accepted:
+                return FINDINGS[f]
+        return None
+    finally:
+        import shutil
+        shutil.rmtree(d, ignore_errors=True)
+
+
 def signature(t_id, events, off, reason):
+    known = classify(events[:off + 1])
+    if known:
+        return known
     e = events[off]
     return "%s:%s:%s" % (reason, e.get("ev"), "ok" if e.get("ok") else "err")
 
@@ -34,10 +60,12 @@ ASSUMPTIONS = [
     "key ignores TOS)",
     "ownership = MainTableOwnershipPolicy as built by ownershippol.NewMainTable, transcribed in Routes.tla "
     "(IsWorkloadBGPPeerIface unset)",
-    "main legs keep away from three confirmed defects (notes/C17.md F1-F3): an ifindex is never reused; a failed "
-    "route listing is only injected into a full resync; with conntrack cleanup enabled a single-address "
-    "destination is wanted through one fixed (class, interface). The defects themselves are replayed by the "
-    "repro leg on every run.",
+    "three confirmed defects (notes/C17.md F1-F3, known_findings.json): the TLC-generated histories and most random "
+    "histories keep away from their triggers (ifindex reuse; route-listing failure hitting a per-interface resync; "
+    "contested single-address destination with conntrack cleanup on), 1 in 16 (thorough: 1 in 6) random histories "
+    "include them; a rejected trace is attributed to a known finding only if TLC accepts it with the environment "
+    "assumption weakened exactly at that defect's trigger (T_Routes_F1/F2/F3.cfg), otherwise it is a violation; the "
+    "three minimal reproductions are replayed on every run",
 ]
 
 DESIGN = [{"module": "I_Routes", "cfg": "MC_I_Routes_quick.cfg", "thorough_cfg": "MC_I_Routes.cfg", "workers": 4,
@@ -65,7 +93,7 @@ def P_for(gen_cfg, n_random, design, num):
     }
 
 
-P = P_for("Gen_sim.cfg", (200, 5000), DESIGN, (60, 1500))
+P = P_for("Gen_sim.cfg", (120, 5000), DESIGN, (40, 1500))
 
 REPROS = [
     ("F1-early-delete-forgets-belief", "repro_F1_early_delete.json",
@@ -81,30 +109,37 @@ REPROS = [
 
 
 def repro_leg(ctx):
-    """Replay the minimal reproductions of the confirmed defects on the real code; a reproduction that TLC
-    rejects is a known finding (KNOWN-FINDING when listed in known_findings.json; logged otherwise, or a
-    VIOLATION with VERIF_C17_STRICT=1).  A reproduction TLC accepts means the defect is gone."""
-    out = []
-    strict = os.environ.get("VERIF_C17_STRICT") == "1"
+    """Replay the minimal reproductions of the confirmed defects on the real code (one driver run, re-executed
+    once to confirm determinism).  Each must be rejected by the property spec and be attributed to its own
+    finding by the tolerance specs; it is reported through core.report (KNOWN-FINDING when listed in
+    known_findings.json, VIOLATION otherwise).  A reproduction that TLC accepts means the defect is gone
+    (logged; the known_findings entry can then be retired)."""
+    behs = []
     for sig, fname, what in REPROS:
-        beh = os.path.join(core.SPECS, SPECDIR, fname)
-        tp = os.path.join(ctx.work, "repro-%s.ndjson" % sig[:2])
-        pipeline.run_driver(ctx, {"cmd": "routes"}, beh, tp, 0)
-        tr = core.validate_trace(SPECDIR, "T_Routes", "T_Routes.cfg", tp, heap="4g", timeout=300)
+        behs += json.load(open(os.path.join(core.SPECS, SPECDIR, fname)))
+    beh = os.path.join(ctx.work, "repro-behaviours.json")
+    json.dump(behs, open(beh, "w"))
+    tp, tp2 = os.path.join(ctx.work, "repro.ndjson"), os.path.join(ctx.work, "repro2.ndjson")
+    pipeline.run_driver(ctx, {"cmd": "routes"}, beh, tp, 0)
+    pipeline.run_driver(ctx, {"cmd": "routes"}, beh, tp2, 0)
+    if open(tp).read() != open(tp2).read():
+        raise HarnessError("reproduction traces differ between two executions")
+    traces = pipeline.split_traces(tp)
+    out = []
+    for (sig, fname, what), (t_id, lines) in zip(REPROS, traces):
+        one = os.path.join(ctx.work, "repro-%s.ndjson" % sig[:2])
+        pipeline.write_traces(one, [(t_id, lines)])
+        tr = core.validate_trace(SPECDIR, "T_Routes", "T_Routes.cfg", one, heap="4g", timeout=300)
         rec = {"finding": sig, "reproduced": not tr.accepted, "rejected_event": tr.hwm if not tr.accepted else None}
         if not tr.accepted:
-            # confirm on re-execution
-            tp2 = os.path.join(ctx.work, "repro2-%s.ndjson" % sig[:2])
-            pipeline.run_driver(ctx, {"cmd": "routes"}, beh, tp2, 0)
-            tr2 = core.validate_trace(SPECDIR, "T_Routes", "T_Routes.cfg", tp2, heap="4g", timeout=300)
-            if tr2.accepted:
-                raise HarnessError("reproduction %s not stable on re-execution" % sig)
-            if core.known_match(ctx.id, sig) or strict:
-                rdir = core.save_replay(ctx, sig[:2], files={"trace.ndjson": tp, "behaviours.json": beh},
-                                        meta={"property": ctx.id, "signature": sig, "event_index": tr.hwm, "what": what})
-                core.report(ctx, sig, what, rdir)
-            else:
-                log("confirmed defect reproduced (not in known_findings.json, not counted): %s - %s" % (sig, what))
+            cut = os.path.join(ctx.work, "repro-cut-%s.ndjson" % sig[:2])
+            pipeline.write_traces(cut, [(t_id, lines[:tr.hwm + 1])])
+            own = core.validate_trace(SPECDIR, "T_Routes", "T_Routes_%s.cfg" % sig[:2], cut, heap="4g", timeout=300)
+            got = sig if own.accepted else None
+            rec["classified_as"] = got
+            rdir = core.save_replay(ctx, sig[:2], files={"trace.ndjson": one, "behaviours.json": os.path.join(core.SPECS, SPECDIR, fname)},
+                                    meta={"property": ctx.id, "signature": got or "unclassified", "event_index": tr.hwm, "what": what})
+            core.report(ctx, got or ("unclassified-reproduction:" + sig), what, rdir)
         else:
             log("defect %s no longer reproduces (TLC accepts the reproduction trace)" % sig)
         out.append(rec)
@@ -122,17 +157,41 @@ def defect_design_leg(ctx):
     ctx.notes["defect_design_runs"] = res
 
 
+def extra_behaviours(ctx):
+    """Behaviours from the other generator configurations (RemoveExternalRoutes off; conntrack cleanup on),
+    replayed in the same driver run as the main generator's."""
+    paths = []
+    for cfg, num in (("Gen_sim_noext.cfg", (25, 1000)), ("Gen_sim_ct.cfg", (25, 1000))):
+        sim = {"num": num[0] if ctx.quick else num[1], "depth": 700}
+        r = core.tlc(SPECDIR, "Gen_Routes", cfg, workers=1, simulate=sim, seed=ctx.seed, heap="4g",
+                     timeout=600 if ctx.quick else 1500)
+        if r.violated and r.violated != "deadlock":
+            raise HarnessError("generator spec problem: %s\n%s" % (r.violated, r.out[-2000:]))
+        if not r.behaviours:
+            raise HarnessError("generator %s produced no behaviours:\n%s" % (cfg, r.out[-2000:]))
+        p = os.path.join(ctx.work, "behaviours-%s.json" % cfg[:-4])
+        json.dump(r.behaviours, open(p, "w"))
+        paths.append(p)
+        ctx.notes.setdefault("extra_generators", []).append({"cfg": cfg, "behaviours": len(r.behaviours)})
+    return paths
+
+
 def run(ctx):
-    pipeline.standard_check(ctx, P)
+    import time
+    t0 = time.time()
+    Pm = dict(P)
+    if not ctx.replay:
+        Pm["driver"] = {"cmd": "routes", "env": {"VERIF_BEH_EXTRA": ":".join(extra_behaviours(ctx))}}
+    t1 = time.time()
+    pipeline.standard_check(ctx, Pm)
+    ctx.assumptions += ASSUMPTIONS
     if ctx.replay:
         return
-    if not ctx.violations:
-        pipeline.standard_check(ctx, P_for("Gen_sim_noext.cfg", (0, 0), [], (40, 1000)))
-    if not ctx.violations:
-        pipeline.standard_check(ctx, P_for("Gen_sim_ct.cfg", (0, 0), [], (40, 1000)))
-    ctx.cov["rule"] = RULE
-    ctx.assumptions += ASSUMPTIONS
+    t2 = time.time()
     repro_leg(ctx)
+    ctx.notes["wall_breakdown_s"] = {"extra_generators": round(t1 - t0, 1), "design+gen+drive+validate": round(t2 - t1, 1),
+                                     "repro_leg": round(time.time() - t2, 1)}
+    log("wall breakdown:", ctx.notes["wall_breakdown_s"])
     if not ctx.quick:
         defect_design_leg(ctx)
 
